@@ -114,7 +114,8 @@ def damage(xml, ops):
         elif op == 'dup_id':
             xml = re.sub(r'(?<![a-z])id="s1"', 'id="s0"', xml, count=1)   # never the harness's own vid="..."
         elif op == 'dangling':
-            xml = re.sub(r'target="[^"]*"', 'target="nosuchstate"', xml, count=1)
+            # a target that does not exist, or one that only exists where a misplaced_elem operator may have put it
+            xml = re.sub(r'target="[^"]*"', 'target="%s"' % ['nosuchstate', 'zs', 'zf', 'zp', 'zh', 'zz'][n % 6], xml, count=1)
         elif op == 'rename_tag':
             name = t.group(1)
             other = ['state', 'parallel', 'final', 'history', 'transition', 'onentry', 'log', 'foo'][n % 8]
@@ -128,7 +129,7 @@ def damage(xml, ops):
             what = ['<scxml/>', '<scxml><state id="zz"/></scxml>', '<final id="zf"/>', '<initial><transition target="s0"/></initial>', '<history id="zh"/>',
                     '<transition target="s0"/>', '<onentry><log label="z" expr="1"/></onentry>', '<datamodel><data id="zd" expr="1"/></datamodel>',
                     '<invoke type="scxml"/>', '<donedata/>', '<param name="p" expr="1"/>', '<content>x</content>', '<finalize/>', '<else/>', '<elseif cond="true"/>',
-                    '<parallel id="zp"/>', '<state id="s0"/>'][n % 17]
+                    '<parallel id="zp"/>', '<state id="zs"><transition event="a" target="s0"/></state>'][n % 17]
             xml = xml[:t.start()] + what + xml[t.start():]
         elif op == 'del_elem':
             if t.group(2) == '/':
